@@ -295,11 +295,16 @@ class Checker:
                    free=self.m['k'] - sum(self.ref['active']), threads=self.m['threads'])
         return out
 
-    def diagnose(self, obs, named, expected_name):
+    def diagnose(self, obs, named, expected_name, spec=None):
         try:
             o = float(obs)
         except (TypeError, ValueError):
             return 'non-numeric'
+
+        def same(v, name):
+            if spec is not None:  # a formatted figure: equal when it prints the same
+                return (abs(v) > 1e-9 or name == 'estimate') and format(o, spec) in fmt_variants(float(v), spec)
+            return (abs(v) > 1e-9 or name == 'estimate') and close(o, float(v), 1e-9, 1e-9)
         # same kind of quantity in another family first (robust, classical, bootstrap), then anything else;
         # coincidences with 0 are not a diagnosis
         kind = expected_name.split(' ', 1)[1] if ' ' in expected_name else expected_name
@@ -307,13 +312,13 @@ class Checker:
         order += [n for n in named if n not in order]
         for name in order:
             v = named.get(name)
-            if name != expected_name and isnum(v) and abs(float(v)) > 1e-9 and close(o, float(v), 1e-9, 1e-9):
+            if name != expected_name and isnum(v) and same(float(v), name):
                 return name
         return 'other'
 
-    def fail(self, view, label, where, obs, ref, named, expected_name, note=''):
+    def fail(self, view, label, where, obs, ref, named, expected_name, note='', spec=None):
         self.bad += 1
-        diag = self.diagnose(obs, named, expected_name) if named is not None else 'n/a'
+        diag = self.diagnose(obs, named, expected_name, spec) if named is not None else 'n/a'
         self.rec.violation(
             f'{ID}|{view}[{label}]|holds:{diag}',
             f'{view}: cell {where} labelled "{label}" holds {obs!r} but {expected_name} by its defining formula is '
@@ -346,7 +351,8 @@ class Checker:
                 obs = float(txt)
             except ValueError:
                 obs = txt
-            self.fail(view, label, where, obs, format(ref, spec), named, expected_name, note=f' (format {spec!r})')
+            self.fail(view, label, where, obs, format(ref, spec), named, expected_name, note=f' (format {spec!r})',
+                      spec=spec or None)
 
     def structure(self, view, what, expected, observed):
         self.compared += 1
